@@ -3,7 +3,7 @@
 #  1. existing suite still passes with the change   2. (integration-test demos) demo fails with / passes without
 #  3. run the registered checks (default: PROP) against a scratch worktree with the change
 P=$1; I=$2; shift 2; CHECKS=${*:-$P}
-OUT=/tmp/seed-$P-out; WT=/tmp/st-$P-$I
+OUT=${SEED_PREFIX:-/tmp/seed}-$P-out; WT=/tmp/st-$P-$I
 git -C /repo worktree add -q --detach $WT HEAD || exit 2
 cd $WT && git apply $OUT/patch$I.diff || { echo "PATCH-DOES-NOT-APPLY"; git -C /repo worktree remove --force $WT; exit 2; }
 echo "== suite with change:"; CARGO_TARGET_DIR=/tmp/st-target cargo test --offline --lib 2>&1 | grep "test result" 
